@@ -152,7 +152,7 @@ def draw_filters(rng, integrator):
   for _ in range(n):
     kind = rng.choice(['exp', 'exp', 'hdiff'])
     if kind == 'exp':
-      out.append({'kind': 'exp', 'order': rng.choice([2, 6, 18]),
+      out.append({'kind': 'exp', 'order': rng.choice([1, 2, 6, 18]),
                   'cutoff': rng.choice([0, 0, 0.3, 0.6]),
                   'tau': rng.choice([0.010938, 0.05])})
     else:
